@@ -17,7 +17,7 @@ Import ListNotations.
 Require Import MV.Lib.Base MV.C17.Gen MV.C17.Model.
 Require Import MV.C17.Proofs_Gate MV.C17.Proofs_Border MV.C17.Proofs_Circle MV.C17.Proofs_Lap MV.C17.Proofs_Harmonic
                MV.C17.Proofs_Max MV.C17.Proofs_Scatter MV.C17.Proofs_Cert MV.C17.Proofs MV.C17.Run MV.C17.Proofs_Scaled
-               MV.C17.Proofs_Run MV.C17.Proofs_Disk.
+               MV.C17.Proofs_Run MV.C17.Proofs_Disk MV.C17.Proofs_Max2.
 Open Scope Z_scope.
 Open Scope Q_scope.
 
@@ -265,3 +265,63 @@ Theorem C17_cotan_cache_stale_refuted :
     check_cert_with rhs_U (lap_triplets fs true current) free bnd (comp_list U_border_data [] [] Ub Vb) D N = false.
 Proof. exact cotan_cache_stale_refuted. Qed.
 Print Assumptions C17_cotan_cache_stale_refuted.
+
+(* ---- round 7: the maximum principle under Floater's hypothesis and with the premises of a connected disk.
+   [merge] puts the face-edge items of one neighbour together: the hypothesis is that the TOTAL weight of every edge at an
+   interior vertex is positive (single cotangent contributions may be negative); "listed" = every face vertex is interior
+   or border; "path" = an edge path to some border vertex.  No boolean guard. *)
+Theorem C17_max_principle_disk : forall fs use_cotan cot free bnd U V Ub Vb,
+  NoDup (free ++ bnd) -> length Ub = length bnd -> length Vb = length bnd ->
+  is_solution_U (lap_triplets fs use_cotan cot) free bnd Ub Vb U ->
+  is_solution_V (lap_triplets fs use_cotan cot) free bnd Ub Vb V ->
+  (forall f m, In f fs -> (0 <= m < 3)%Z -> In (face_vertex f m) (free ++ bnd)) ->
+  (forall i j W, In i free -> In (j, W) (merge (nbrs 0 fs (cot_opt use_cotan cot) i)) -> 0 < W) ->
+  (forall i, In i free -> exists z, In z bnd /\ path (fun i => nbrs 0 fs (cot_opt use_cotan cot) i) i z) ->
+  forall i, In i free -> in_hull (map (pos free bnd U V Ub Vb) bnd) (pos free bnd U V Ub Vb i).
+Proof. exact max_principle_edges. Qed.
+Print Assumptions C17_max_principle_disk.
+
+(* uniform weights: Floater's hypothesis holds by itself *)
+Theorem C17_max_principle_uniform_disk : forall fs cot free bnd U V Ub Vb,
+  NoDup (free ++ bnd) -> length Ub = length bnd -> length Vb = length bnd ->
+  is_solution_U (lap_triplets fs false cot) free bnd Ub Vb U ->
+  is_solution_V (lap_triplets fs false cot) free bnd Ub Vb V ->
+  (forall f m, In f fs -> (0 <= m < 3)%Z -> In (face_vertex f m) (free ++ bnd)) ->
+  (forall i, In i free -> exists z, In z bnd /\ path (fun i => nbrs 0 fs (cot_opt false cot) i) i z) ->
+  forall i, In i free -> in_hull (map (pos free bnd U V Ub Vb) bnd) (pos free bnd U V Ub Vb i).
+Proof. exact max_principle_uniform_disk. Qed.
+Print Assumptions C17_max_principle_uniform_disk.
+
+(* strong form: strictly inside every supporting half-plane that some reached border vertex is strictly inside of *)
+Theorem C17_strict_interior : forall fs use_cotan cot free bnd U V Ub Vb,
+  NoDup (free ++ bnd) -> length Ub = length bnd -> length Vb = length bnd ->
+  is_solution_U (lap_triplets fs use_cotan cot) free bnd Ub Vb U ->
+  is_solution_V (lap_triplets fs use_cotan cot) free bnd Ub Vb V ->
+  (forall f m, In f fs -> (0 <= m < 3)%Z -> In (face_vertex f m) (free ++ bnd)) ->
+  (forall i j W, In i free -> In (j, W) (merge (nbrs 0 fs (cot_opt use_cotan cot) i)) -> 0 < W) ->
+  (forall i, In i free -> exists z, In z bnd /\ path (fun i => nbrs 0 fs (cot_opt use_cotan cot) i) i z) ->
+  forall a b g : Q,
+    (forall x, In x bnd -> a * fst (pos free bnd U V Ub Vb x) + b * snd (pos free bnd U V Ub Vb x) <= g) ->
+    forall i z, In i free -> reach (fun i => nbrs 0 fs (cot_opt use_cotan cot) i) free bnd i z ->
+      a * fst (pos free bnd U V Ub Vb z) + b * snd (pos free bnd U V Ub Vb z) < g ->
+      a * fst (pos free bnd U V Ub Vb i) + b * snd (pos free bnd U V Ub Vb i) < g.
+Proof. exact strict_interior. Qed.
+Print Assumptions C17_strict_interior.
+
+(* first geometric step of the fold-free argument: w.r.t. every border edge (b1,b2) of a convex counter-clockwise border
+   polygon, an interior vertex lies strictly on the polygon's side - triangles on a border edge are strictly positive *)
+Theorem C17_border_edge_triangles : forall fs use_cotan cot free bnd U V Ub Vb,
+  NoDup (free ++ bnd) -> length Ub = length bnd -> length Vb = length bnd ->
+  is_solution_U (lap_triplets fs use_cotan cot) free bnd Ub Vb U ->
+  is_solution_V (lap_triplets fs use_cotan cot) free bnd Ub Vb V ->
+  (forall f m, In f fs -> (0 <= m < 3)%Z -> In (face_vertex f m) (free ++ bnd)) ->
+  let N := fun i => nbrs 0 fs (cot_opt use_cotan cot) i in
+  (forall i j W, In i free -> In (j, W) (merge (N i)) -> 0 < W) ->
+  (forall i, In i free -> exists z, In z bnd /\ path N i z) ->
+  let p := pos free bnd U V Ub Vb in
+  forall b1 b2 : Z,
+    (forall x, In x bnd -> 0 <= orient_det (p b1) (p b2) (p x)) ->
+    forall i z, In i free -> reach N free bnd i z -> 0 < orient_det (p b1) (p b2) (p z) ->
+    0 < orient_det (p b1) (p b2) (p i).
+Proof. exact border_edge_triangles. Qed.
+Print Assumptions C17_border_edge_triangles.
